@@ -12,21 +12,15 @@ Open Scope Z_scope.
 (** for EVERY byte string: no panic, and never more than 1024 elements of capacity requested *)
 Theorem C16_array_never_panics : forall A (c : codec A), codec_ok c -> forall (n : nat), Z.of_nat n + 1 < 2 ^ 64 ->
   forall bs, dec (c_array n c) bs <> DPanic /\ alloc_of (dec (c_array n c) bs) <= 1024.
-Proof. intros A c Hc n Hn bs. destruct (ok_array c Hc n Hn) as [_ _ P Al]. auto. Qed.
+Proof. exact @array_never_panics. Qed.
 
 Theorem C16_vec_never_panics_and_caps_allocation : forall A (c : codec A), codec_ok c ->
   forall bs, dec (c_vec c) bs <> DPanic /\ alloc_of (dec (c_vec c) bs) <= 1024.
-Proof. intros A c Hc bs. split.
-  - unfold c_vec; cbn [dec]. unfold dec_vec. destruct (take 8 bs) as [[lb r]|]; [|discriminate].
-    pose proof (vec_go_no_panic c Hc (S (length r)) (le_to_Z lb) [] r). destruct (dec_vec_go c _ _ [] r); congruence.
-  - unfold c_vec; cbn [dec]. unfold dec_vec. destruct (take 8 bs) as [[lb r]|]; [|cbn [alloc_of]; lia].
-    pose proof (vec_go_alloc c Hc (S (length r)) (le_to_Z lb) [] r) as Al.
-    pose proof (Z.le_min_r (le_to_Z lb) 1024) as Mn.
-    destruct (dec_vec_go c (S (length r)) (le_to_Z lb) [] r); cbn [alloc_of] in *; lia. Qed.
+Proof. exact @vec_never_panics_and_caps_allocation. Qed.
 
 Theorem C16_every_codec_total : forall A (c : codec A), codec_ok c ->
   forall bs, dec c bs <> DPanic /\ alloc_of (dec c bs) <= 1024.
-Proof. intros A c [_ _ P Al] bs. auto. Qed.
+Proof. exact @every_codec_total. Qed.
 
 (** hence for every composite wire type (instances: the largest ones) *)
 Theorem C16_pay_proof_total : forall (K : Fld) (c_scalar c_g1 c_g2 : codec K),
